@@ -173,7 +173,7 @@ where C: FullDuplexMultiChannel<ItemType = Tok, DerivedItemType = D> + Send + Sy
 
 // ------------------------------------------------------------------------------------------------ sequential transition (log channel)
 
-async fn sequential_case(sequential: bool, limit: u32, exec: u8, with_timeout: bool, olds: Vec<u8>, news: Vec<u8>, paused: bool, ledger: Arc<Ledger>) -> Vec<(String, String)> {
+pub async fn sequential_case(sequential: bool, limit: u32, exec: u8, with_timeout: bool, olds: Vec<u8>, news: Vec<u8>, paused: bool, ledger: Arc<Ledger>) -> Vec<(String, String)> {
     static SEQ: AtomicU64 = AtomicU64::new(0);
     let name = format!("rmv-c12s-{}-{}", std::process::id(), SEQ.fetch_add(1, SeqCst));
     let multi = Arc::new(Multi::<Tok, ChannelMultiMmapLog<Tok, 4>, I, &'static Tok>::new(name.clone()));
